@@ -22,7 +22,7 @@ ASSUMPTIONS = ["bounds model: (0,0) initially, min/max on add, untouched by remo
                "removing an absent unit must raise KeyError (docstring); ValueError for it is a violation"]
 
 ANN = ["x", "y", "Zed"]
-LABELS = [None, "a", "b"]
+LABELS = [None, "a", "b", ""]
 STARTS = [0.0, 1.0, 2.5]
 DURS = [1.0, 2.0]
 
